@@ -28,7 +28,7 @@ def spec(tier, seed):
         gen_y += gy.instance("c13", w, h)
         jobs.append(Job("yuv", gy.name("c13", w, h), 1200, params={"w": w, "h": h}, group="rgba", weight=w * h, allow_uncovered=gy.uncovered(w, h)))
     from vf import core_scenarios as cs
-    cgen, cjobs = cs.jobs_for(tier, seed, quick_n=6)
+    cgen, cjobs = cs.jobs_for('quick', seed, quick_n=6 if tier == 'quick' else 30)
     jobs += [j for j in cjobs if not j.is_kf_twin]
     CORE_GEN = cgen
     return {
